@@ -110,13 +110,19 @@ RAW = "raw::verif_kani"
 RAW_FUNCS = ("RawCache::{new,insert,insert_with_properties,insert_inner,remove,get,contains,touch,clear,evict_all,usage,entries}, "
              "RawCacheShard::{emplace,evict,remove,clear,get_*}, RawCacheEntry::{clone,drop,is_outdated,refs}, Sentry, ")
 INST = {"fifo": "RawCache<Fifo<u64,u64,HProps>, IdHasher, VecIndexer>", "lru": "RawCache<Lru<u64,u64,HProps>(ratio 0.5), IdHasher, VecIndexer>",
-        "sieve": "RawCache<Sieve<u64,u64,HProps>, IdHasher, VecIndexer>"}
+        "sieve": "RawCache<Sieve<u64,u64,HProps>, IdHasher, VecIndexer>",
+        "s3fifo": "RawCache<S3Fifo<u64,u64,HProps>(small 0.5, ghost 1.0, threshold 1), IdHasher, VecIndexer>",
+        "lfu": "RawCache<Lfu<u64,u64,HProps>(window 0.4, protected 0.4, smallest sketch), IdHasher, VecIndexer>"}
 TAKE = [TAKE_STUB]
+
+
+S3_RAW_STUBS = ["std HashSet::insert -> no-op, GhostQueue::{contains,pop} -> on the ghost VecDeque (s3fifo.rs hook), RandomState::new -> fixed keys (std's HashSet is SSE2 hashbrown inside the prebuilt std)"]
 
 
 def raw(name, alg, props, what, bounds, quick=False, tq=600, tt=1800):
     h(props[0], "foyer-memory", RAW, name, what, RAW_FUNCS + f"{alg.capitalize()}::{{push,pop,remove,acquire,release,clear}}", bounds,
-      quick=quick, tq=tq, tt=tt, unwind=5, instantiation=INST[alg], extra_props=props[1:], stubs=MEMORY_STUBS + TAKE, memsafety=False)
+      quick=quick, tq=tq, tt=tt, unwind=5, instantiation=INST[alg], extra_props=props[1:], stubs=MEMORY_STUBS + TAKE + (S3_RAW_STUBS if alg == "s3fifo" else []),
+      memsafety=False, exp=(alg == "lfu"))
 
 
 # The step harnesses are declared in /verif/harness/foyer-memory/raw.rs; the registry reads them from there so that the two
@@ -138,11 +144,13 @@ QUICK_RAW = {
     # C18
     "raw_fifo_c2_get_k0", "raw_fifo_c2_hold_ins_k2_w1", "raw_lru_c2_hold_ins_k2_w2", "raw_lru_c2_hold_ins_k2_w3", "raw_lru_c2_keep_hold_ins_k2_w2", "raw_lru_c2_touch_ins_k0_w2",
     "raw_lru_c2_holdins_k0_w2", "raw_lru_c2_hold_evictall", "raw_lru_c2_hold_remove_k0",
+    # S3-FIFO instantiation
+    "raw_s3fifo_c2_ins_k2_w1", "raw_s3fifo_c2_ins_k2_w2", "raw_s3fifo_c2_clear", "raw_s3fifo_c2_hold_ins_k2_w1", "raw_s3fifo_c2_insdisk_k0_w2",
 }
 
 
 def _scenario(name, ety, keep, args, key, lit=None):
-    alg = {"FifoT": "fifo", "LruT": "lru", "SieveT": "sieve"}[ety]
+    alg = {"FifoT": "fifo", "LruT": "lru", "SieveT": "sieve", "S3FifoT": "s3fifo", "LfuT": "lfu"}[ety]
     cap, pre, npre, hold, pin, obs, op = args[:7]
     props = []
     what = []
@@ -182,6 +190,10 @@ for _m in _re.finditer(r"\nstep_harness!\((\w+), (\w+), [^;]*?sck?\(" + _A + r"(
     g = _m.groups()
     lm = _re.search(r"lit: \((\d), (true|false)\)", _m.group(0))
     _scenario(g[0], g[1], "keep_insert_handle: true" in _m.group(0), list(g[2:9]), g[9], lm.groups() if lm else None)
+for _m in _re.finditer(r"\nstep_harness_s3!\((\w+), [^;]*?sck?\(" + _A + r"(?:, (\d))?\)[^;]*\);", _RAW_SRC):
+    g = _m.groups()
+    lm = _re.search(r"lit: \((\d), (true|false)\)", _m.group(0))
+    _scenario(g[0], "S3FifoT", False, list(g[1:8]), g[8], lm.groups() if lm else None)
 
 for alg in ("fifo", "lru", "sieve"):
     for n in (2, 3):
